@@ -242,6 +242,16 @@ Proof.
   eapply normalize_box_corner; eauto.
 Qed.
 
+(* fit_into_unit_cube is normalize(center_at_zero=False) (call plumbing regenerated from the source) *)
+Lemma fit_is_normalize (w : world) i : step O w (OFit i) = step O w (ONormalize i false).
+Proof. cbn [step]. change fit_centre_flag with false. reflexivity. Qed.
+
+Theorem fit_anchors_the_box (w w' : world) i :
+  wf w -> step O w (OFit i) = Some w' ->
+  exists lo' hi', bbox O (obj_coords O w' i) = Some (lo', hi')
+    /\ lo' = vzero O /\ vmax3 O (aabb_span O lo' hi') = 1.
+Proof. rewrite fit_is_normalize. apply normalize_anchors_the_box. Qed.
+
 (* definedness: the hypotheses "at least one vertex, positive largest extent" are all a normalize step needs *)
 Theorem normalize_defined (w : world) i so lo hi c :
   get_mesh w i = Some so -> bbox O (coords O (mheap (wmem w)) so) = Some (lo, hi) ->
